@@ -5,6 +5,8 @@ package main
 // threshold, shared sub-values (DAGs), back edges.  Observed: error or text; oracle: encoding/json.
 
 import (
+	"bytes"
+	"context"
 	stdjson "encoding/json"
 	"fmt"
 	"strings"
@@ -17,9 +19,27 @@ type C08G struct {
 	Next *C08G       `json:"next,omitempty"`
 	Kids []*C08G     `json:"kids,omitempty"`
 	I    interface{} `json:"i,omitempty"`
+	// audit A8: the other ways an edge can be held
+	M  map[string]*C08G `json:"m,omitempty"`
+	PI *interface{}     `json:"pi,omitempty"`
+	S  C08Shape         `json:"s,omitempty"`
 }
 
-func c08BuildGraph(adj [][]int, viaIface []bool) []*C08G {
+func (*C08G) Sides() int { return 2 }
+
+// edge kinds of the first successor of a node (the further successors are elements of Kids)
+const (
+	c08EdgePtr      = iota // Next
+	c08EdgeIface           // interface{}
+	c08EdgeMap             // map[string]*C08G
+	c08EdgePtrIface        // *interface{}
+	c08EdgeNonEmpty        // an interface type with methods
+	c08EdgeKinds
+)
+
+var c08EdgeNames = []string{"pointer", "interface{}", "map", "*interface{}", "non-empty interface"}
+
+func c08BuildGraph(adj [][]int, via []int) []*C08G {
 	nodes := make([]*C08G, len(adj))
 	for i := range nodes {
 		nodes[i] = &C08G{ID: i}
@@ -27,16 +47,46 @@ func c08BuildGraph(adj [][]int, viaIface []bool) []*C08G {
 	for i, ss := range adj {
 		for k, s := range ss {
 			switch {
-			case k == 0 && !viaIface[i]:
-				nodes[i].Next = nodes[s]
-			case k == 0:
-				nodes[i].I = nodes[s]
-			default:
+			case k > 0:
 				nodes[i].Kids = append(nodes[i].Kids, nodes[s])
+			case via[i] == c08EdgeIface:
+				nodes[i].I = nodes[s]
+			case via[i] == c08EdgeMap:
+				nodes[i].M = map[string]*C08G{"e": nodes[s]}
+			case via[i] == c08EdgePtrIface:
+				var h interface{} = nodes[s]
+				nodes[i].PI = &h
+			case via[i] == c08EdgeNonEmpty:
+				nodes[i].S = nodes[s]
+			default:
+				nodes[i].Next = nodes[s]
 			}
 		}
 	}
 	return nodes
+}
+
+// the entry points the graphs are encoded through, in rotation (the oracle is always encoding/json's Marshal: only
+// error or no error is compared, and the text where the entry point is Marshal itself)
+var c08CycleEntries = []struct {
+	name string
+	f    func(v interface{}) ([]byte, error)
+}{
+	{"Marshal", func(v interface{}) ([]byte, error) { return gojson.Marshal(v) }},
+	{"MarshalIndent", func(v interface{}) ([]byte, error) { return gojson.MarshalIndent(v, "", "") }},
+	{"MarshalNoEscape", func(v interface{}) ([]byte, error) { return gojson.MarshalNoEscape(v) }},
+	{"Marshal", func(v interface{}) ([]byte, error) { return gojson.Marshal(v) }},
+	{"Encoder", func(v interface{}) ([]byte, error) {
+		var b bytes.Buffer
+		err := gojson.NewEncoder(&b).Encode(v)
+		return b.Bytes(), err
+	}},
+	{"colour", func(v interface{}) ([]byte, error) { return gojson.MarshalWithOption(v, gojson.Colorize(c13Scheme())) }},
+	{"MarshalContext", func(v interface{}) ([]byte, error) { return gojson.MarshalContext(context.Background(), v) }},
+	{"unordered map", func(v interface{}) ([]byte, error) { return gojson.MarshalWithOption(v, gojson.UnorderedMap()) }},
+	{"colour+indent", func(v interface{}) ([]byte, error) {
+		return gojson.MarshalIndentWithOption(v, "", "", gojson.Colorize(c13Scheme()))
+	}},
 }
 
 func c08CycleCases(o *Out) {
@@ -50,14 +100,22 @@ func c08CycleCases(o *Out) {
 		tail := 1 + r.Intn(6)
 		total := chain + tail
 		adj := make([][]int, total)
-		via := make([]bool, total)
+		via := make([]int, total)
+		edge := func(p int) int { // 1 in p: not a plain pointer, any of the other kinds
+			if r.Intn(p) != 0 {
+				return c08EdgePtr
+			}
+			k := 1 + r.Intn(c08EdgeKinds-1)
+			o.hist("cycle_graph_edge_kinds", c08EdgeNames[k])
+			return k
+		}
 		for i := 0; i < chain; i++ {
 			adj[i] = []int{i + 1}
-			via[i] = r.Intn(7) == 0
+			via[i] = edge(7)
 		}
 		kind := r.Intn(3) // 0: tree/DAG tail, 1: DAG with sharing, 2: a back edge somewhere
 		for i := chain; i < total; i++ {
-			via[i] = r.Intn(3) == 0
+			via[i] = edge(3)
 			k := r.Intn(3)
 			for j := 0; j < k && i+1 < total; j++ {
 				t := i + 1 + r.Intn(total-i-1)
@@ -88,13 +146,15 @@ func c08CycleCases(o *Out) {
 				fmt.Fprint(&sb, s)
 			}
 		}
-		o.current(map[string]string{"property": "C08", "what": "cycle graph", "chain": fmt.Sprint(chain), "tail": fmt.Sprint(tail), "kind": fmt.Sprint(kind)})
+		entry := c08CycleEntries[c%len(c08CycleEntries)]
+		o.hist("cycle_graph_entry_point", entry.name)
+		o.current(map[string]string{"property": "C08", "what": "cycle graph", "chain": fmt.Sprint(chain), "tail": fmt.Sprint(tail), "kind": fmt.Sprint(kind), "entry_point": entry.name, "graph": clip(sb.String())})
 		obs := func(lib string) string {
 			var err error
 			var b []byte
 			if perr := safeCall(func() error {
 				if lib == "go" {
-					b, err = gojson.Marshal(nodes[0])
+					b, err = entry.f(nodes[0])
 				} else {
 					b, err = stdjson.Marshal(nodes[0])
 				}
@@ -112,12 +172,13 @@ func c08CycleCases(o *Out) {
 		o.count("cycle_graph_cases", 1)
 		o.hist("cycle_graph", fmt.Sprintf("chain=%d kind=%d %s", chain, kind, want))
 		o.emit("A", "c08.cycle", [][]byte{[]byte(sb.String()), []byte("0")}, []byte(got), []byte(want), true)
-		if got == "ok" && want == "ok" {
+		if got == "ok" && want == "ok" && entry.name == "Marshal" {
 			// the same text, too
 			g, _ := gojson.Marshal(nodes[0])
 			w, _ := stdjson.Marshal(nodes[0])
 			if string(g) != string(w) {
-				o.violation("C08", "a deep shared acyclic value is encoded differently from encoding/json", map[string]string{"graph": clip(sb.String())})
+				o.violation("C08", "a deep shared acyclic value is encoded differently from encoding/json", map[string]string{"graph": clip(sb.String()), "edge_kinds": fmt.Sprint(via[chain:]),
+					"first_difference": fmt.Sprint(firstDiff(g, w)), "got_at_difference": around(g, firstDiff(g, w)), "want_at_difference": around(w, firstDiff(g, w))})
 			}
 		}
 	}
